@@ -302,6 +302,11 @@ class ExtReal:
         a = self.ev(x)
         if a.kind == "nan":
             return a
+        for b_ in (lo, hi):  # a NaN bound makes the result NaN
+            if isinstance(b_, (Op, Sym)):
+                bv = self.ev(b_)
+                if bv.kind == "nan":
+                    return bv
         if a.kind == "inf":
             bound = hi if a.sign == 1 else lo
             if bound is None:
